@@ -58,7 +58,13 @@ JUNK_VALUES = st.one_of(
     st.just({"signature": "00" * 64, "extra": 1}), st.just({"other_headers": "04", "signature": "0" * 127}),
     st.just({"other_headers": "", "signature": "00" * 64}), st.just({"other_headers": "0", "signature": "00" * 64}),
     st.just({"other_headers": "04", "signature": "00" * 64, "see_also": "AB" * 20}),
-    st.just([{"signature": "00" * 64}]), st.just("00" * 64), G.json_values(5))
+    st.just([{"signature": "00" * 64}]), st.just("00" * 64), G.json_values(5),
+    # the right field names with values that are no strings at all
+    st.sampled_from([{"other_headers": None, "signature": "ab" * 64}, {"other_headers": 5, "signature": "ab" * 64},
+                     {"other_headers": "04", "signature": None}, {"other_headers": ["04"], "signature": "ab" * 64},
+                     {"other_headers": "04", "signature": 7}, {"signature": ["ab" * 64]}, {"signature": {"signature": "ab" * 64}},
+                     {"other_headers": "04", "signature": "ab" * 64, "see_also": None}, {"other_headers": "04", "signature": "ab" * 64, "see_also": {}},
+                     {"other_headers": True, "signature": False}]))
 
 
 def other_payload_bytes(draw, payload, envelope_hint):
